@@ -712,6 +712,13 @@ C10_CaughtUpAtEnd == (Last.e = "end" /\ q0.t >= 0) => SchedulesCaughtUp(db, q0.t
 HandoffsSucceededSince(t) == \A k \in DOMAIN sends : sends[k].t >= t => sends[k].outcome = "ok"
 HandedOffSince(r, t) == \E k \in DOMAIN sends : /\ sends[k].t >= t /\ sends[k].outcome = "ok"
                                                   /\ Has(db.tasks, k[1]) /\ db.tasks[k[1]].rootId = r
+\* F18 (known finding): the dispatcher reads the dispatchable roots in the order of their ids, at most TaskBatchSize of them;
+\* a task that was handed off and is never claimed comes back when its lease runs out (counter + 1) and is first again:
+\* TaskBatchSize (or more) such roots keep every root behind them from ever being dispatched
+Redispatched(t) ==
+  {db.tasks[k1[1]].rootId : k1 \in {k \in DOMAIN sends : /\ sends[k].t >= t /\ sends[k].outcome = "ok" /\ Has(db.tasks, k[1])
+                                                          /\ \E k2 \in DOMAIN sends : k2[1] = k[1] /\ k2[2] # k[2] /\ sends[k2].t >= t /\ sends[k2].outcome = "ok"}}
+IsF18(r) == Cardinality(Redispatched(q0.t) \ {r}) >= cfg.taskBatchSize
 C11_ConvergedAtEnd ==
   (Last.e = "end" /\ q0.t >= 0) =>
      /\ ConvergedButKnown(db, q0.t)
@@ -723,5 +730,6 @@ C11_ConvergedAtEnd ==
      \* (a root whose own hand-off did succeed is owed the record of it whatever happened to the others)
      /\ \A r \in EnqueueableRoots(db) \cap EnqueueableRoots(q0.db) :
            (HandoffsSucceededSince(q0.t) \/ HandedOffSince(r, q0.t)) =>
-             \E x \in DOMAIN db.tasks : db.tasks[x].rootId = r /\ (~ Has(q0.db.tasks, x) \/ db.tasks[x] # q0.db.tasks[x])
+             \/ \E x \in DOMAIN db.tasks : db.tasks[x].rootId = r /\ (~ Has(q0.db.tasks, x) \/ db.tasks[x] # q0.db.tasks[x])
+             \/ IsF18(r) /\ "F18" \in Known /\ NoteFinding("F18")
 =============================================================================
